@@ -476,4 +476,81 @@ func RamConc(args []string) {
 	}
 	res.Distinct = *rounds
 	res.Sample(map[string]interface{}{"rounds": *rounds, "ops_per_session": 60})
+	for r := 0; r < 1+*rounds/10 && res.NViol() < 5; r++ {
+		ramCreateRace(r, res)
+	}
+}
+
+// ramCreateRace: several sessions try to create the same names in the shared root at the same moment.
+// The tree is one object: for every name exactly one create succeeds, the others are told the name exists,
+// and the node a later walk finds is the one the winner was given (its data is what the winner wrote).
+func ramCreateRace(round int, res *hx.Result) {
+	const P, N = 8, 600
+	fs := ramfs.NewTestServer()
+	ctx := context.Background()
+	type win struct {
+		p   int
+		qid p9p.Qid
+	}
+	var mu sync.Mutex
+	winners := map[int][]win{}
+	start := make(chan struct{})
+	var wg sync.WaitGroup
+	for p := 0; p < P; p++ {
+		wg.Add(1)
+		go func(p int) {
+			defer wg.Done()
+			okc, dump := hx.RunTimed(20*hxTimeout, func() {
+				sess := p9p.SFileSys(fs)
+				sess.Attach(ctx, 1, p9p.NOFID, fmt.Sprintf("u%d", p), "/")
+				<-start
+				for n := 0; n < N; n++ {
+					sess.Walk(ctx, 1, 2)
+					q, _, err := sess.Create(ctx, 2, fmt.Sprintf("n%d", n), 0644, p9p.ORDWR)
+					if err == nil {
+						sess.Write(ctx, 2, []byte(fmt.Sprintf("written-by-%d", p)), 0)
+						mu.Lock()
+						winners[n] = append(winners[n], win{p, q})
+						mu.Unlock()
+					}
+					sess.Clunk(ctx, 2)
+				}
+				sess.Clunk(ctx, 1)
+			})
+			if !okc {
+				res.Violate("C18", "concurrent-panic-or-hang", hx.Trunc(dump, 1500), map[string]interface{}{"engine": "ramconc", "create_race": round})
+			}
+		}(p)
+	}
+	close(start)
+	wg.Wait()
+	res.Evaluations += P * N
+	sess := p9p.SFileSys(fs)
+	sess.Attach(ctx, 1, p9p.NOFID, "checker", "/")
+	for n := 0; n < N && res.NViol() < 3; n++ {
+		w := winners[n]
+		name := fmt.Sprintf("n%d", n)
+		if len(w) != 1 {
+			res.Violate("C18", "concurrent-create-winners", fmt.Sprintf("%d sessions created %q in the same directory at the same moment and %d of them were told they succeeded (sessions %v); a directory holds one child per name", P, name, len(w), w),
+				map[string]interface{}{"engine": "ramconc", "create_race": round})
+			continue
+		}
+		q, err := sess.Walk(ctx, 1, 3, name)
+		if err != nil || len(q) != 1 {
+			res.Violate("C18", "concurrent-create-lost", fmt.Sprintf("%q was created (by session %d) and never removed, but a walk does not find it: %v", name, w[0].p, err), map[string]interface{}{"engine": "ramconc", "create_race": round})
+			continue
+		}
+		buf := make([]byte, 32)
+		sess.Open(ctx, 3, p9p.OREAD)
+		k, _ := sess.Read(ctx, 3, buf, 0)
+		sess.Clunk(ctx, 3)
+		if q[0].Path != w[0].qid.Path || string(buf[:k]) != fmt.Sprintf("written-by-%d", w[0].p) {
+			res.Violate("C18", "concurrent-create-other-node", fmt.Sprintf("%q: the creator (session %d) was given qid path %d and wrote its mark; a walk finds qid path %d holding %q", name, w[0].p, w[0].qid.Path, q[0].Path, buf[:k]),
+				map[string]interface{}{"engine": "ramconc", "create_race": round})
+		}
+	}
+	sess.Clunk(ctx, 1)
+	if err := ramfs.VerifValidate(fs); err != nil && res.NViol() == 0 {
+		res.Violate("C18", "concurrent-refcount", "after the concurrent creates, all fids clunked: "+err.Error(), map[string]interface{}{"engine": "ramconc", "create_race": round})
+	}
 }
